@@ -464,6 +464,23 @@ impl<'a> Interp<'a> {
                     ordered: false,
                 }
             }
+            BinOp::KeyedJoinAssoc(agg) => {
+                let left = eval_gb(GbForm::FoldAssoc, *agg, &l.v);
+                RS {
+                    v: eval_join(JoinKind::Inner, &left, &r.v),
+                    weak: l.weak || r.weak,
+                    ordered: false,
+                }
+            }
+            BinOp::KeyedMergeAssoc(agg) => {
+                let mut all = l.v.clone();
+                all.extend(r.v.iter().cloned());
+                RS {
+                    v: eval_gb(GbForm::Reduce, *agg, &all),
+                    weak: l.weak || r.weak,
+                    ordered: false,
+                }
+            }
             BinOp::IntervalJoin { lower, upper, keyed } => {
                 let mut v = Vec::new();
                 for a in &l.v {
